@@ -180,8 +180,8 @@ CHECKS = {
         "technique": "property-based testing (rapid) of generated producer/consumer scripts in testing/synctest bubbles; multiset/order/termination oracle",
         "rule": ("kinds chans-merge, replicate, stream-merge. non-trivial = >= 2 non-empty inputs of different lengths (one closes while another still has values), or arity in {0,1}, or an early Close (stream.Merge); replicate: >= 2 destinations and >= 2 values, or zero destinations; distinct = distinct plan JSON; R=3/10"),
         "assumptions": ["testing/synctest durable-block detection", "rapid v1.3.0; go1.26.8"],
-        "jobs": [{"pkg": "c12merge", "kinds": ["chans-merge", "chans-merge-iface", "replicate", "stream-merge"], "scale_thorough": 10, "shards_thorough": 16, "replay_reps": 30},
-                 {"pkg": "c12merge", "race": True, "kinds": ["chans-merge", "chans-merge-iface", "replicate", "stream-merge"], "scale_quick": 0.15, "scale_thorough": 2, "shards_thorough": 4, "replay_reps": 20}],
+        "jobs": [{"pkg": "c12merge", "kinds": ["chans-merge", "chans-merge-iface", "replicate", "stream-merge", "stream-merge-burst"], "scale_thorough": 10, "shards_thorough": 16, "replay_reps": 30},
+                 {"pkg": "c12merge", "race": True, "kinds": ["chans-merge", "chans-merge-iface", "replicate", "stream-merge", "stream-merge-burst"], "scale_quick": 0.15, "scale_thorough": 2, "shards_thorough": 4, "replay_reps": 20}],
     },
     "C13": {
         "level": "exploration",
@@ -192,7 +192,7 @@ CHECKS = {
         "technique": "property-based testing (rapid) in testing/synctest bubbles with counting/gauge oracle; race-detector runs",
         "rule": ("kinds parallel (bubble) and parallel-race. non-trivial = n > parallelism >= 2 with non-uniform latencies or at least one failing index; distinct = distinct plan JSON; R=3/8"),
         "assumptions": ["testing/synctest", "Go race detector", "rapid v1.3.0; go1.26.8"],
-        "jobs": [{"pkg": "c13par", "run": "TestParallelBubble", "kinds": ["parallel"], "scale_thorough": 8, "shards_thorough": 16, "replay_reps": 20},
+        "jobs": [{"pkg": "c13par", "run": "TestParallelBubble|TestFirstErrorStorm|TestGomaxprocs", "kinds": ["parallel", "first-error-storm", "gomaxprocs"], "scale_thorough": 8, "shards_thorough": 16, "replay_reps": 20},
                  {"pkg": "c13par", "run": "TestParallelRace", "race": True, "kinds": ["parallel-race"], "scale_thorough": 8, "shards_thorough": 8, "replay_reps": 20}],
     },
     "C14": {
